@@ -116,7 +116,7 @@ func (c vfTwinCase) String() string {
 
 func vfTwinCases() []vfTwinCase {
 	var cs []vfTwinCase
-	for _, p := range []string{"same-name-different-parents", "anonymous-siblings", "parent-and-child", "name-prefix", "colon-in-name-and-reference", "double-colon-in-name-and-reference", "same-name-deeper-level"} {
+	for _, p := range []string{"same-name-different-parents", "anonymous-siblings", "parent-and-child", "name-prefix", "colon-in-name-and-reference", "double-colon-in-name-and-reference", "same-name-deeper-level", "same-actor-rescheduled"} {
 		for _, k := range []string{"once", "loop"} {
 			for _, a := range []string{"none", "cancel", "clear", "kill", "poison", "restart"} {
 				for _, bf := range []bool{false, true} {
@@ -154,7 +154,7 @@ func vfRunTwin(c vfTwinCase) (viols []vfViol, note string) {
 		tops = []*vfTwinActor{mk("sup", "sup", mk("A", ""), mk("B", ""))}
 	case "parent-and-child": // /sup/a and /sup/a/b
 		tops = []*vfTwinActor{mk("sup", "sup", mk("A", "a", mk("B", "b")))}
-	case "name-prefix": // /sup/a and /sup/ab
+	case "name-prefix", "same-actor-rescheduled": // /sup/a and /sup/ab
 		tops = []*vfTwinActor{mk("sup", "sup", mk("A", "a"), mk("B", "ab"))}
 	case "colon-in-name-and-reference": // /sup/a + "b:tick"  vs  /sup/a:b + "tick"
 		tops = []*vfTwinActor{mk("sup", "sup", mk("A", "a"), mk("B", "a:b"))}
@@ -192,6 +192,12 @@ func vfRunTwin(c vfTwinCase) (viols []vfViol, note string) {
 	} else {
 		schedule(ra, "A", refA)
 		schedule(rb, "B", refB)
+	}
+	if c.Pair == "same-actor-rescheduled" {
+		// A registers the same reference a second time while the first registration is still pending. Which of the two
+		// registrations counts is not specified - but whatever is registered under the reference dies with Cancel / Clear /
+		// the owner: after the action nothing may arrive at A any more
+		schedule(ra, "A", refA)
 	}
 	// the action lands at 150 ms: after the first firing of a loop, after the firing of a once
 	actAt := 150 * time.Millisecond
@@ -261,7 +267,16 @@ func vfRunTwin(c vfTwinCase) (viols []vfViol, note string) {
 		}
 		add(kind, key, "B (%s, reference %q) fired at %v, want %v: its job must not depend on what happens to the job A (%s) scheduled under reference %q", rb.GetPath(), refB, gotB, wantB, ra.GetPath(), refA)
 	}
-	if !eq(gotA, wantA) {
+	if c.Pair == "same-actor-rescheduled" {
+		if c.Action != "none" {
+			for _, at := range gotA {
+				if at > actAt {
+					add("c20-unexpected-firing", key, "A (%s) registered reference %q twice and then %s at %v; a tick still arrived at %v (all ticks %v): a registration survived the action", ra.GetPath(), refA, c.Action, actAt, at, gotA)
+					break
+				}
+			}
+		}
+	} else if !eq(gotA, wantA) {
 		kind := "c20-missed-firing"
 		if len(gotA) > len(wantA) {
 			kind = "c20-unexpected-firing"
@@ -270,6 +285,16 @@ func vfRunTwin(c vfTwinCase) (viols []vfViol, note string) {
 	}
 	if len(wrong) > 0 {
 		add("c20-wrong-message", key, "%v", wrong)
+	}
+	if c.Pair == "same-actor-rescheduled" {
+		// whether the second registration of a pending reference is refused is not specified
+		kept := errs[:0]
+		for _, e := range errs {
+			if !strings.HasPrefix(e, "A.") {
+				kept = append(kept, e)
+			}
+		}
+		errs = kept
 	}
 	if len(errs) > 0 {
 		add("c20-schedule-error", key, "%v", errs)
@@ -282,7 +307,7 @@ func vfRunTwin(c vfTwinCase) (viols []vfViol, note string) {
 }
 
 func TestVerif_schedtwins(t *testing.T) {
-	R := verifrt.NewReport("schedtwins", "enumerated in virtual time: 7 ways in which two actors A and B are easy to confuse (same Name() under different parents, the same name one level deeper, anonymous actors, parent and child, a name that is a prefix of the other, names and references containing ':' resp. '::' such that path+separator+reference reads the same) x {Once, Loop} scheduled by both under the same reference string x what happens to A's job {nothing, Cancel, Clear, Kill, poison Kill, failure + Restart} x who schedules first. Oracle (exact, virtual clock): B's ticks arrive exactly at the instants its own job dictates whatever happened to A's job, A's exactly up to the action, every tick at its own actor, no scheduling error. non-trivial+distinct = cases in which both actors scheduled their job")
+	R := verifrt.NewReport("schedtwins", "enumerated in virtual time: 8 ways in which two actors A and B are easy to confuse (same Name() under different parents, the same name one level deeper, anonymous actors, parent and child, a name that is a prefix of the other, names and references containing ':' resp. '::' such that path+separator+reference reads the same; and one actor that registers the same reference twice while the first registration is pending - nothing may fire after Cancel / Clear / its death) x {Once, Loop} scheduled by both under the same reference string x what happens to A's job {nothing, Cancel, Clear, Kill, poison Kill, failure + Restart} x who schedules first. Oracle (exact, virtual clock): B's ticks arrive exactly at the instants its own job dictates whatever happened to A's job, A's exactly up to the action, every tick at its own actor, no scheduling error. non-trivial+distinct = cases in which both actors scheduled their job")
 	defer R.Flush()
 	cases := vfTwinCases()
 	only := verifrt.EnvInt("VERIF_CASE", -1)
